@@ -28,6 +28,9 @@ From Refinery Require Import Gen.GenC31.
 
 Definition two32 : N := 4294967296%N.
 
+(* the kept record stores the rate in a uint32 or in a uint, whichever NewKeptTraceCacheEntry does *)
+Definition store_rate (r : N) : N := if kept_rate_is_uint32 then (r mod two32)%N else r.
+
 (* ---------------- kept records and the LRU ---------------- *)
 Record krec := { k_rate : N; k_reason : N; k_desc : N; k_sev : N; k_link : N; k_span : N }.
 
@@ -219,7 +222,7 @@ Definition step (c : cache) (o : op) : cache * ans :=
   match o with
   | RecKept id rate reason desc sev link span =>
       let '(rs', idx) := reasons_set (rs c) reason in
-      let v := {| k_rate := rate mod two32; k_reason := idx mod two32;
+      let v := {| k_rate := store_rate rate; k_reason := idx mod two32;
                   k_desc := desc; k_sev := sev; k_link := link; k_span := span |}%N in
       ({| kept := lru_add (kcap c) id v (kept c); kcap := kcap c; rs := rs';
           chk := chk c; recent := recent c; now := now c |}, AUnit)
